@@ -56,6 +56,15 @@ pub fn check_rpoint(sp: &Spec, p: &RistrettoPoint, m: &Pt, deep: bool) -> Result
     if p.is_identity() != m_id || (*p == RistrettoPoint::identity()) != m_id {
         return Err("identity test disagrees".into());
     }
+    // the same question through the `group` crate's trait and through ConstantTimeEq
+    if bool::from(group::Group::is_identity(p)) != m_id {
+        return Err(format!("group::Group::is_identity = {} want {}", !m_id, m_id));
+    }
+    if bool::from(subtle::ConstantTimeEq::ct_eq(p, &<RistrettoPoint as group::Group>::identity())) != m_id
+        || bool::from(subtle::ConstantTimeEq::ct_eq(&<RistrettoPoint as group::Group>::identity(), p)) != m_id
+    {
+        return Err("ct_eq(group identity) disagrees".into());
+    }
     if deep {
         let lp = guarded(|| p * &BASEPOINT_ORDER).map_err(|e| format!("panic in [l]P: {}", e))?;
         if !lp.is_identity() {
@@ -516,7 +525,7 @@ pub fn run(ctx: &Ctx) {
         w[32..].copy_from_slice(&fb[(i + 5) % fb.len()]);
         inits.push(RK { name: format!("from_uniform_bytes#{}", i), pt: ris::one_way_map(&w), real: RistrettoPoint::from_uniform_bytes(&w) });
     }
-    let depth = 3;
+    let depth = if ctx.deep { 4 } else { 3 };
     ctx.bound("machine_depth", json!(depth));
     ctx.bound("machine_pool", json!(pool.len()));
     ctx.bound("machine_inits", json!(inits.len()));
